@@ -56,10 +56,14 @@ SLURM_MAP = {"cores": "cpus-per-task", "memory": "mem", "walltime": "time", "que
 WD_NAMES = ["plain", "{queue}", "x{cores}y", "with space", "semi;colon", "amp&ersand", "dollar$HOME", "star*", "single'quote", 'double"quote', "paren(s)", "back`tick", "ünïcödé", "tab-less but  two spaces", "#hash", "~tilde", "a|b", "x>y", "br{a,b}ce", "q?mark", "excl!"]
 
 
+QUICK_BUDGET = {"cases": 240, "deadline_s": 110, "case_timeout_s": 120, "floors": {"scripts_checked": 400, "scripts_executed": 400, "directives_checked": 1500, "logs_cmd_checked": 200, "logclean_checked": 200}}
+THOROUGH_FACTOR = 48  # thorough = the same workload with 48x the cases (floors scale along)
+
+
 def budget(tier):
-    if tier == "thorough":
-        return {"cases": 3000, "deadline_s": 900, "case_timeout_s": 180, "floors": {"scripts_checked": 5000, "scripts_executed": 5000, "directives_checked": 20000, "logs_cmd_checked": 2500, "logclean_checked": 2500}}
-    return {"cases": 240, "deadline_s": 110, "case_timeout_s": 120, "floors": {"scripts_checked": 400, "scripts_executed": 400, "directives_checked": 1500, "logs_cmd_checked": 200, "logclean_checked": 200}}
+    from ..core import scaled_budget
+
+    return scaled_budget(QUICK_BUDGET, tier, THOROUGH_FACTOR, noscale=())
 
 
 def gen_spec(rng, uid):
